@@ -266,6 +266,19 @@ class C10Engine(Engine):
         viol = []
         if any(c["uncertain"] for c in clients.values()):
             return viol
+        # unspecified zone (7.2): a side that closed and then re-opened is subscribed although its
+        # row says "closed".  Whether its re-open comes before or after another side's (re-sent)
+        # last close decides whether the mailbox is deleted, and the two worlds order these differently.
+        view = getattr(self, "_own_view", None)
+        if view is not None:
+            for cid, info in clients.items():
+                if info["reopen"] is not None and info["app"] is not None:
+                    mb = view.mb(info["app"], info["reopen"])
+                    row = mb.side(info["side"]) if mb is not None else None
+                    if row is not None and row.flag is False:
+                        facts["extra"]["resume_skipped_reopened_zone"] = \
+                            facts["extra"].get("resume_skipped_reopened_zone", 0) + 1
+                        return viol
         cont, resend_at = self.continuation(spec, target, clients)
         if cont is None:
             return viol
